@@ -19,7 +19,8 @@ import (
 var ErrVerifDev = errors.New("verif: injected dev database failure")
 
 type VerifDev struct {
-	Tables int
+	Tables int      // number of user tables
+	Names  []string // their names, in creation order (statements "CREATE TABLE <name> ..." / "DROP TABLE <name>")
 	Ops    int
 	FailAt int
 	Log    []string // statements that took effect
@@ -46,8 +47,18 @@ func (e verifXDevExec) ExecContext(_ context.Context, q string, _ ...any) (sql.R
 	switch {
 	case strings.HasPrefix(q, "CREATE TABLE"):
 		e.d.Tables++
+		e.d.Names = append(e.d.Names, verifXTableName(q[len("CREATE TABLE"):]))
+	case strings.HasPrefix(q, "DROP TABLE"):
+		name := verifXTableName(q[len("DROP TABLE"):])
+		for k, n := range e.d.Names {
+			if n == name {
+				e.d.Names = append(e.d.Names[:k:k], e.d.Names[k+1:]...)
+				e.d.Tables--
+				break
+			}
+		}
 	case strings.HasPrefix(q, "DELETE FROM sqlite_master"):
-		e.d.Tables = 0
+		e.d.Tables, e.d.Names = 0, nil
 	}
 	return nil, nil
 }
@@ -64,7 +75,11 @@ type verifXDevInspect struct {
 func (i verifXDevInspect) realm() *schema.Realm {
 	s := schema.New(mainFile)
 	for k := 0; k < i.d.Tables; k++ {
-		s.AddTables(schema.NewTable(fmt.Sprintf("x%d", k)).AddColumns(schema.NewIntColumn("id", "integer")))
+		name := fmt.Sprintf("x%d", k)
+		if k < len(i.d.Names) && i.d.Names[k] != "" {
+			name = i.d.Names[k]
+		}
+		s.AddTables(schema.NewTable(name).AddColumns(schema.NewIntColumn("id", "integer")))
 	}
 	return schema.NewRealm(s)
 }
@@ -81,6 +96,14 @@ func (i verifXDevInspect) InspectSchema(context.Context, string, *schema.Inspect
 		return nil, ErrVerifDev
 	}
 	return i.realm().Schemas[0], nil
+}
+
+func verifXTableName(rest string) string {
+	rest = strings.TrimSpace(rest)
+	if k := strings.IndexAny(rest, " (;"); k >= 0 {
+		rest = rest[:k]
+	}
+	return strings.Trim(rest, "`\"")
 }
 
 // VerifDevDriver returns the real driver over the modelled database.
